@@ -59,6 +59,10 @@ def r_arith(ctx):
                 op = e["op"]
                 a, b = e["a"], e["b"]
                 how = e["how"]
+                if how and how.startswith("saturating_") and (_source_atoms(a) + _source_atoms(b)) and not unsafe_entry:
+                    key = (e.node.inst.path(), e.get("line"), op)
+                    sites.setdefault(key, []).append((False, fpath, e, "the operation saturates instead of panicking: an unrepresentable request is silently clamped"))
+                    continue
                 if how and (how.startswith("checked_") or how.startswith("saturating_")):
                     # explicit checked arithmetic: fine if the None case panics or is handled (unwrap/expect/map_or ...): any use is explicit
                     key = (e.node.inst.path(), e.get("line"), op)
@@ -184,6 +188,7 @@ def r_overlap(ctx):
                     safe = delta.nonneg_coeffs() or guard == "dst>src"
                 if safe:
                     res.ok()
+                    _check_loop_order(res, I, inst, rn, src, dst, fpath, an, seen)
                 else:
                     caller = inst.parent.path() if inst.parent else fpath
                     res.fail(caller, "byte-loop-direction/%s" % an,
@@ -191,6 +196,73 @@ def r_overlap(ctx):
                              "overlapping bytes are overwritten before they are read" % (inst.path(), "ascending" if direction == "asc" else "descending",
                                                                                        "above" if direction == "asc" else "below", delta), span=span_of_effect(rn))
     return res
+
+
+def _loop_byte_range(I, rn):
+    """byte interval [lo, hi) of the helper's buffers touched by the index loop of RANGE_NEXT effect rn, or None"""
+    rng = rn["range"]
+    if not (isinstance(rng, tuple) and rng and rng[0] == "range"):
+        return None
+    lo, hi = as_poly(rng[1]), as_poly(rng[2])
+    loop = I.reachable_from(rn.gid)
+    loop = {g for g in loop if rn.gid in I.reachable_from(g)} | {rn.gid}
+    scales = set()
+    for e in I.all_effects(("PTRADD",)):
+        if e.gid not in loop or e.node.inst is not rn.node.inst:
+            continue
+        n = as_poly(e["n"])
+        idx = [a for a in n.atoms() if "rangenext" in repr(a) and repr(rn.gid) in repr(a)]
+        if not idx:
+            idx = [a for a in n.atoms() if "rangenext" in repr(a) or (isinstance(a, tuple) and a and a[0] == "phi")]
+        if not idx:
+            continue
+        q = div_atom(n, idx[0])
+        if q is None:
+            return None
+        unit = Poly.const(1) if e["ety"] in BYTE_TYPES else Poly.atom(("SIZEOF", e["ety"]))
+        scales.add(q * unit)
+    if len(scales) != 1:
+        return None
+    c = list(scales)[0]
+    return lo * c, hi * c
+
+
+def _check_loop_order(res, I, inst, rn, src, dst, fpath, an, seen):
+    """several index loops under the same pointer-order guard must visit their byte intervals in the direction that is safe for that guard"""
+    guard = _ptr_order_fact(rn["facts"], src, dst)
+    sibs = [e for e in effects_in(I, inst, ("RANGE_NEXT",)) if e.node.inst is inst and _ptr_order_fact(e["facts"], src, dst) == guard and e is not rn]
+    if not sibs:
+        return
+    key = (inst.path(), "loop-order", guard, repr(src), repr(dst))
+    if key in seen:
+        return
+    seen.add(key)
+    loops = sorted([rn] + sibs, key=lambda e: e.gid)
+    # order by dominance
+    idom = I.dominators()
+    ordered = []
+    for e in loops:
+        ordered.append(e)
+    ordered.sort(key=lambda e: sum(1 for o in loops if o is not e and I.g.dominates(idom, o.gid, e.gid)))
+    res.inst(sample={"helper": inst.path(), "guard": guard, "loops": len(ordered), "entry": fpath}, func=inst.path())
+    ranges = [_loop_byte_range(I, e) for e in ordered]
+    caller = inst.parent.path() if inst.parent else fpath
+    if any(r is None for r in ranges):
+        res.fail(inst.path(), "unclassified-copy-loop/%s" % an, "a copy loop of %s cannot be classified (index range / stride unknown); overlapping copies are not shown safe" % inst.path(),
+                 span=span_of_effect(rn), kind="coverage-lost")
+        return
+    ascending = guard in ("dst<=src", None) and rn["direction"] == "asc"
+    for (a, b) in zip(ranges, ranges[1:]):
+        if ascending:
+            good = (b[0] - a[1]).nonneg_coeffs()       # next interval starts at or after the end of the previous one
+        else:
+            good = (a[0] - b[1]).nonneg_coeffs()       # next interval ends at or before the start of the previous one
+        if not good:
+            res.fail(inst.path(), "copy-loop-order/%s" % an,
+                     "%s copies the byte intervals [%s, %s) and then [%s, %s) in the branch where the regions overlap with %s: the later loop reads bytes the earlier one has already "
+                     "overwritten" % (inst.path(), a[0], a[1], b[0], b[1], "dst above src" if not ascending else "dst below src"), span=span_of_effect(ordered[1]))
+            return
+    res.ok()
 
 
 def _ptr_order_fact(facts, src, dst):
